@@ -1165,3 +1165,64 @@ FUNCTIONS += [
         lean_sig=': List Act', acts=True, prologue=['let mut acts : List Act := []'], epilogue='return acts', void_result='acts',
     ),
 ]
+
+# ----------------------------------------------------------------------------------------------
+# clause registration order (C08), the end-of-life / forbidden reports (C04, C07, C15), return_value (C08)
+
+R_TOK = [(r'^reason$', 'RTok.reason'), (r'^name$', 'RTok.name'), (r'^loc$', 'RTok.loc'), (r'^values$', 'RTok.values'),
+         (r'^min_calls$', 'RTok.minTimes min_calls'), (r'^call_count$', 'RTok.times call_count'),
+         (r'^"once"$', 'RTok.minOnce'), (r'^"never called\\n"$', 'RTok.never'), (r'^"called once\\n"$', 'RTok.once'),
+         (r'^"(?:\\.|[^"\\])*"$', 'RTok.text'), (r"^'(?:\\.|[^'\\])*'$", 'RTok.text')]
+
+FUNCTIONS += [
+    dict(
+        name='add_condition', cxx='call_matcher::add_condition', file=MOCK, module='AddCondition',
+        header=r'\n\s*add_condition\(\s*char const \*str,\s*C&& c\)',
+        pre=[(r'new condition<Sig, C>\(str, std::forward<C>\(c\)\)', 'NEW_CONDITION(c)')],
+        lean_sig='{κ : Type} (c : κ) (conditions0 : List κ) : List κ',
+        prologue=['let mut conditions := conditions0'], epilogue='return conditions', void_result='conditions',
+        vars={'c': 'c'},
+        decl_rules=[(r'^auto cond = NEW_CONDITION\(c\)$', 'let cond := c')],
+        stmt_rules=[(r'^conditions\.push_back\(cond\)$', 'conditions := conditions ++ [cond]')],
+    ),
+    dict(
+        name='add_side_effect', cxx='call_matcher::add_side_effect', file=MOCK, module='AddSideEffect',
+        header=r'\n\s*add_side_effect\(\s*S&& s\)',
+        pre=[(r'new side_effect<Sig, S>\(std::forward<S>\(s\)\)', 'NEW_SIDE_EFFECT(s)')],
+        lean_sig='{κ : Type} (s : κ) (actions0 : List κ) : List κ',
+        prologue=['let mut actions := actions0'], epilogue='return actions', void_result='actions',
+        vars={'s': 's'},
+        decl_rules=[(r'^auto effect = NEW_SIDE_EFFECT\(s\)$', 'let effect := s')],
+        stmt_rules=[(r'^actions\.push_back\(effect\)$', 'actions := actions ++ [effect]')],
+    ),
+    dict(
+        name='report_unfulfilled', cxx='trompeloeil::report_unfulfilled', file=MOCK, module='ReportUnfulfilled',
+        header=r'report_unfulfilled\(\s*const char\* reason,[^)]*location\s+loc\)',
+        # `switch (call_count) { case 0: A; break; case 1: B; break; default: C; }` read as the if-chain it is
+        pre=[(r'(?s)switch\s*\(call_count\)\s*\{\s*case 0:\s*(.*?;)\s*break;\s*case 1:\s*(.*?;)\s*break;\s*default:\s*(.*?;)\s*\}',
+              r'if (call_count == 0) { \1 } else if (call_count == 1) { \2 } else { \3 }')],
+        lean_sig='(min_calls call_count : Nat) : Sev × List RTok',
+        vars={'min_calls': 'min_calls', 'call_count': 'call_count'},
+        decl_rules=[(r'^std::ostringstream os$', 'let mut os : List RTok := []')],
+        stmt_rules=[(r'^send_report\(severity::nonfatal, loc, os\.str\(\)\)$', 'return (Sev.nonfatal, os)')],
+        stream_sinks=[(r'^os$', 'os')], tok_rules=R_TOK,
+        epilogue='return (Sev.fatal, os)',
+    ),
+    dict(
+        name='report_forbidden_call', cxx='trompeloeil::report_forbidden_call', file=MOCK, module='ReportForbiddenCall',
+        header=r'report_forbidden_call\(\s*char const \*name,\s*location loc,\s*std::string const& values\)',
+        lean_sig=': Sev × List RTok',
+        decl_rules=[(r'^std::ostringstream os$', 'let mut os : List RTok := []')],
+        stmt_rules=[(r'^send_report\(severity::fatal, loc, os\.str\(\)\)$', 'return (Sev.fatal, os)')],
+        stream_sinks=[(r'^os$', 'os')], tok_rules=R_TOK,
+        epilogue='return (Sev.nonfatal, os)',
+    ),
+    dict(
+        name='return_value', cxx='call_matcher::return_value', file=MOCK, module='ReturnValue',
+        header=r'\n\s*return_value\(\s*trace_agent& agent,\s*call_params_type_t<Sig>& params\)\s*override',
+        pre=[(r'default_return<return_of_t<Sig>>\(\)', 'DEFAULT_RETURN'), (r'return_handler_obj->call\(agent, params\)', 'HANDLER_CALL')],
+        lean_sig='{ρ : Type} (has_handler : Bool) (default_return handler_call : ρ) : ρ',
+        expr_rules=[(r'^!return_handler_obj$', '(!has_handler)')],
+        ret_rules=[(r'^DEFAULT_RETURN$', 'default_return'), (r'^HANDLER_CALL$', 'handler_call')],
+    ),
+]
